@@ -134,7 +134,7 @@ E_RULE = ("cases are stratified programs (2-5 predicates p0..p4 of arity 0-2, 1-
           "requests) and then re-asked 1-3 more times. Compared per request: the returned substitution set (with variable ids), the resolved query, "
           "the variable counter and the text written to stdout. Non-trivial = at least two clauses or at least one answer; distinct = distinct "
           "encoded program text. Programs in which an occurs-check situation arises stop at that point in both runs. "
-          "Every run also enumerates ALL 6210 programs `t($X) :- BODY. t(other). g(1). g(2). h(2). h(3). c($X) :- g($X), !. c(3).` whose BODY is a "
+          "Every run also enumerates ALL 12420 programs `t($X) :- BODY.` + `t(other).` (in both clause orders) + `g(1). g(2). h(2). h(3). c($X) :- g($X), !. c(3).` whose BODY is a "
           "conjunction/disjunction of 1-3 goals (flat, `(a;b),c`, `a,(b;c)`, `(a,b);c`, `a;(b,c)`, `(a,b),c`) over the 10-goal alphabet "
           "{g($X), h($X), !, fail, $X = 2, print, not(h($X)), g($Y), $X < 2, c($X)}.")
 
